@@ -33,7 +33,7 @@ SALat == { <<2,-1,1,1>>, <<2,0,0,1>>, <<2,0,1,0>>, <<2,1,0,0>>, <<2,1,1,0>>, <<2
            <<10000,1,2,2>> }
 
 
-Ks  == {12, 20, 40, 100, 300, 700, 1000, 1022, 1060, 1074}
+Ks  == {12, 20, 40, 100, 300, 511, 515, 520, 530, 537, 700, 1000, 1022, 1060, 1074}   \* 511..537: theta^2 = 2^-2k is subnormal (1/theta^2 overflows)
 Us  == { <<1,0,0>>, <<0,1,0>>, <<1,-1,1>>, <<3,-2,1>> }
 
 
@@ -83,6 +83,11 @@ NextS == UNCHANGED dummy /\
   \/ /\ tv.op = "seedr"
      /\ \/ \E k \in Ks, u \in Us : tv' = [op |-> "dyadic", k |-> k, u |-> u, U |-> Hat(u), U2 |-> M3Mul(Hat(u), Hat(u)), nu |-> NormSq(u)]
         \/ tv' = [op |-> "zero"]
+        (* arguments EXACTLY on a switch: theta^2 = 1/1000 (and 4/1000, where theta^2/4 is on it) as vectors n/100 whose
+           squared norm is exactly the threshold also in double arithmetic (0.03^2 + 0.01^2 == 0.001), planar angle 1/1000;
+           the second-order enclosure of regime R1 still separates a dropped coefficient (error >= 1e-2) from the truth *)
+        \/ \E xn \in {<<3,1,0>>, <<0,-3,1>>, <<-1,0,3>>, <<6,2,0>>, <<0,-2,6>>}, sg \in {1, -1} :
+              tv' = [op |-> "switchx", xn |-> xn, xd |-> 100, tn |-> sg, td |-> 1000, U |-> Hat(xn), U2 |-> M3Mul(Hat(xn), Hat(xn)), nu |-> NormSq(xn)]
         (* SE(2): theta = atan2(+-2m, m^2-1) = +-2 atan(1/m): both signs, both neighbours of the
            theta = 1e-3 switch of the plain (non-squared) series, ladder up to 0.93 rad *)
         \/ \E m \in {2, 3, 5, 8, 16, 125, 1999, 2000, 2001, 10000}, sg \in {1, -1}, rho \in {<<3,-1>>} :
@@ -98,7 +103,8 @@ SpecS == InitS /\ [][NextS]_<<tv, dummy>>
    lattice too (where the numbers fit), and the second-order polynomials are consistent:
    (I + X/2 + X^2/6)(I - X/2 + X^2/12) = I + O(X^3)  <=>  the X and X^2 coefficients vanish       *)
 SmallLaws == tv.op = "jac_so3" /\ QNorm(tv.h) <= 2000 => VLaws(tv.h) /\ JlRJr(tv.h)
-Poly2 == tv.op = "dyadic" =>
+OnSwitch == tv.op = "switchx" => (1000 * tv.nu = tv.xd * tv.xd \/ 1000 * tv.nu = 4 * tv.xd * tv.xd) /\ tv.td = 1000 /\ tv.tn \in {1, -1}
+Poly2 == tv.op \in {"dyadic", "switchx"} =>
    /\ tv.U2 = M3Mul(tv.U, tv.U)
    /\ M3Mul(tv.U2, tv.U) = MScale(-tv.nu, tv.U)               \* X^3 = -|x|^2 X : the series are series in theta^2
 =============================================================================
